@@ -229,6 +229,8 @@ DurLawsClause(m, ev) ==
 ID == INSTANCE ImplDur WITH EqIgnoresMonthSign <- FALSE, AddDropsMonthsOnMixedSigns <- FALSE
 DurExtClause(ev) ==
   IF ~ev.ok THEN "ext:raised-" \o ev.cls
+  \* (C11 proper, not ext: the empty duration is the identity of a value obtained from to_weeks() as of any other Duration)
+  ELSE IF ~ev.twid THEN "identity-law-on-to_weeks-result"
   ELSE IF ~ID!Same8(ev.fd, ID!IFloorDiv(ev.a, ev.n)) THEN "ext:floordiv"
   ELSE IF ~ID!Same8(ev.ab, ID!IAbs(ev.a)) THEN "ext:abs"
   ELSE IF ev.hastw /\ ~ID!Same8(ev.tw, ID!IToWeeks(ev.a)) THEN "ext:to_weeks"
@@ -394,7 +396,9 @@ RecTextClause(m, ev) ==
   IF ~ev.ok THEN "raised-" \o ev.cls
   ELSE IF ~ev.eq THEN "parse(str(r))#r"
   ELSE IF ~ev.strfix THEN "str-not-fixpoint"
-  ELSE IF Len(ev.p1) # Len(ev.p2) \/ \E k \in 1..Len(ev.p1) : ~SameTP(ev.p1[k], ev.p2[k]) THEN "reparsed-points-differ"
+  \* (points that carry a "...Z" dump format print their UTC clock reading: the reparsed points are then the same INSTANTS)
+  ELSE IF Len(ev.p1) # Len(ev.p2) \/ \E k \in 1..Len(ev.p1) :
+            IF ev.byinst THEN Inst(m, ev.p1[k]) # Inst(m, ev.p2[k]) ELSE ~SameTP(ev.p1[k], ev.p2[k]) THEN "reparsed-points-differ"
   ELSE "ok"
 
 \* C15: one calendar helper query  [fn, a, b] -> res, judged under the mode the specification tracks
